@@ -36,13 +36,17 @@ Module B := BayDefs.
 Inductive caddr :=
 | ASysTh (t w : nat) | ASysCpu (c w : nat)      (* &thread->chan[w], &cpu->chan[w] *)
 | AArr (b : nat) (i : Z)                        (* element i of the b-th calloc'ed array of channels *)
-| ATrk (b : nat) (i : Z).                       (* &track->ch of element i of the b-th array of tracks *)
+| ATrk (b : nat) (i : Z)                        (* &track->ch of element i of the b-th array of tracks *)
+| ABd (a w : nat)                               (* nosv_breakdown_cpu of the nosv_cpu object a: tr (0), tri (1) *)
+| ASink (a : nat).                              (* where the sort callback of that CPU puts the value of tri *)
 Definition caddr_eqb (x y : caddr) : bool :=
   match x, y with
   | ASysTh a b, ASysTh c d => Nat.eqb a c && Nat.eqb b d
   | ASysCpu a b, ASysCpu c d => Nat.eqb a c && Nat.eqb b d
   | AArr a i, AArr b j => Nat.eqb a b && Z.eqb i j
   | ATrk a i, ATrk b j => Nat.eqb a b && Z.eqb i j
+  | ABd a i, ABd b j => Nat.eqb a b && Nat.eqb i j
+  | ASink a, ASink b => Nat.eqb a b
   | _, _ => false
   end.
 
@@ -53,7 +57,8 @@ Definition ptr_system := option unit.
 Definition ptr_bay := option unit.
 Definition ptr_chan := option caddr.
 Definition ptr_track := option (nat * Z).
-Definition ptr_mux := option (nat * Z).              (* &track->mux *)
+Inductive muxref := MTrk (b : nat) (i : Z) | MBd (a w : nat).   (* &track->mux; &bcpu->mux0 / mux1 (w = 0 / 1), the sort callback (w = 2) *)
+Definition ptr_mux := option muxref.
 Definition ptr_sthread := option nat.
 Definition ptr_scpu := option nat.
 Definition ptr_mthread := option nat.
@@ -68,7 +73,7 @@ Definition ptr_recorder := option unit.
 Definition ptr_pvt := option bool.                   (* cpu? *)
 Definition ptr_prv := option bool.
 Definition ptr_pcf := option bool.
-Inductive selfn := FRunning | FActive.
+Inductive selfn := FRunning | FActive | FSelTr | FSelIdle.
 Definition ptr_fn := option selfn.
 Definition ptr_void := option vobj.
 Definition ptr_str := option string.
@@ -100,13 +105,16 @@ Record cstate := {
   cs_mths : list mthobj;
   cs_mcpus : list mcpuobj;
   cs_ext : list ((bool * nat * Z) * vobj);     (* extend tables: (cpu?, gindex, model id) -> object *)
-  cs_inited : list (bool * nat)                (* is_init of the system threads (false, t) / CPUs (true, c) *)
+  cs_inited : list (bool * nat);               (* is_init of the system threads (false, t) / CPUs (true, c) *)
+  cs_mark : list ((bool * nat) * (ptr_chan * ptr_track));  (* ovni/mark.c: per ovni_thread (false, a) / ovni_cpu (true, a): mark.channels, mark.track *)
+  cs_bd : list ((nat * nat) * nat)             (* nosv/breakdown.c: the bay mux id of mux0 / mux1 / the sort callback of the nosv_cpu object a *)
 }.
 Record cenv := {
   cn_chans : list chanspec;                    (* the channel specs of the enabled models *)
   cn_nth : nat;                                (* threads of the system *)
   cn_ncpu : nat;
-  cn_alloc_ok : bool                           (* calloc succeeds *)
+  cn_alloc_ok : bool;                          (* calloc succeeds *)
+  cn_body : Z; cn_prog : Z                     (* ST_TASK_BODY, ST_PROGRESSING of the breakdown select functions *)
 }.
 
 Definition E_FAIL := 20%nat.
@@ -145,23 +153,27 @@ Definition for_next_cpu {A} (start : cenv -> cstate -> ptr_scpu) (acc : A) (body
 
 (* ---- state updates *)
 Definition with_bay (st : cstate) (x : B.bay) : cstate :=
-  {| cs_bay := x; cs_reg := cs_reg st; cs_pend := cs_pend st; cs_narr := cs_narr st; cs_tracks := cs_tracks st; cs_mths := cs_mths st; cs_mcpus := cs_mcpus st; cs_ext := cs_ext st; cs_inited := cs_inited st |}.
+  {| cs_bay := x; cs_reg := cs_reg st; cs_pend := cs_pend st; cs_narr := cs_narr st; cs_tracks := cs_tracks st; cs_mths := cs_mths st; cs_mcpus := cs_mcpus st; cs_ext := cs_ext st; cs_inited := cs_inited st; cs_mark := cs_mark st; cs_bd := cs_bd st |}.
 Definition with_reg (st : cstate) (x : list caddr) : cstate :=
-  {| cs_bay := cs_bay st; cs_reg := x; cs_pend := cs_pend st; cs_narr := cs_narr st; cs_tracks := cs_tracks st; cs_mths := cs_mths st; cs_mcpus := cs_mcpus st; cs_ext := cs_ext st; cs_inited := cs_inited st |}.
+  {| cs_bay := cs_bay st; cs_reg := x; cs_pend := cs_pend st; cs_narr := cs_narr st; cs_tracks := cs_tracks st; cs_mths := cs_mths st; cs_mcpus := cs_mcpus st; cs_ext := cs_ext st; cs_inited := cs_inited st; cs_mark := cs_mark st; cs_bd := cs_bd st |}.
 Definition with_pend (st : cstate) (x : list (caddr * (bool * bool * bool))) : cstate :=
-  {| cs_bay := cs_bay st; cs_reg := cs_reg st; cs_pend := x; cs_narr := cs_narr st; cs_tracks := cs_tracks st; cs_mths := cs_mths st; cs_mcpus := cs_mcpus st; cs_ext := cs_ext st; cs_inited := cs_inited st |}.
+  {| cs_bay := cs_bay st; cs_reg := cs_reg st; cs_pend := x; cs_narr := cs_narr st; cs_tracks := cs_tracks st; cs_mths := cs_mths st; cs_mcpus := cs_mcpus st; cs_ext := cs_ext st; cs_inited := cs_inited st; cs_mark := cs_mark st; cs_bd := cs_bd st |}.
 Definition with_narr (st : cstate) (x : nat) : cstate :=
-  {| cs_bay := cs_bay st; cs_reg := cs_reg st; cs_pend := cs_pend st; cs_narr := x; cs_tracks := cs_tracks st; cs_mths := cs_mths st; cs_mcpus := cs_mcpus st; cs_ext := cs_ext st; cs_inited := cs_inited st |}.
+  {| cs_bay := cs_bay st; cs_reg := cs_reg st; cs_pend := cs_pend st; cs_narr := x; cs_tracks := cs_tracks st; cs_mths := cs_mths st; cs_mcpus := cs_mcpus st; cs_ext := cs_ext st; cs_inited := cs_inited st; cs_mark := cs_mark st; cs_bd := cs_bd st |}.
 Definition with_tracks (st : cstate) (x : list (list trackobj)) : cstate :=
-  {| cs_bay := cs_bay st; cs_reg := cs_reg st; cs_pend := cs_pend st; cs_narr := cs_narr st; cs_tracks := x; cs_mths := cs_mths st; cs_mcpus := cs_mcpus st; cs_ext := cs_ext st; cs_inited := cs_inited st |}.
+  {| cs_bay := cs_bay st; cs_reg := cs_reg st; cs_pend := cs_pend st; cs_narr := cs_narr st; cs_tracks := x; cs_mths := cs_mths st; cs_mcpus := cs_mcpus st; cs_ext := cs_ext st; cs_inited := cs_inited st; cs_mark := cs_mark st; cs_bd := cs_bd st |}.
 Definition with_mths (st : cstate) (x : list mthobj) : cstate :=
-  {| cs_bay := cs_bay st; cs_reg := cs_reg st; cs_pend := cs_pend st; cs_narr := cs_narr st; cs_tracks := cs_tracks st; cs_mths := x; cs_mcpus := cs_mcpus st; cs_ext := cs_ext st; cs_inited := cs_inited st |}.
+  {| cs_bay := cs_bay st; cs_reg := cs_reg st; cs_pend := cs_pend st; cs_narr := cs_narr st; cs_tracks := cs_tracks st; cs_mths := x; cs_mcpus := cs_mcpus st; cs_ext := cs_ext st; cs_inited := cs_inited st; cs_mark := cs_mark st; cs_bd := cs_bd st |}.
 Definition with_mcpus (st : cstate) (x : list mcpuobj) : cstate :=
-  {| cs_bay := cs_bay st; cs_reg := cs_reg st; cs_pend := cs_pend st; cs_narr := cs_narr st; cs_tracks := cs_tracks st; cs_mths := cs_mths st; cs_mcpus := x; cs_ext := cs_ext st; cs_inited := cs_inited st |}.
+  {| cs_bay := cs_bay st; cs_reg := cs_reg st; cs_pend := cs_pend st; cs_narr := cs_narr st; cs_tracks := cs_tracks st; cs_mths := cs_mths st; cs_mcpus := x; cs_ext := cs_ext st; cs_inited := cs_inited st; cs_mark := cs_mark st; cs_bd := cs_bd st |}.
 Definition with_ext (st : cstate) (x : list ((bool * nat * Z) * vobj)) : cstate :=
-  {| cs_bay := cs_bay st; cs_reg := cs_reg st; cs_pend := cs_pend st; cs_narr := cs_narr st; cs_tracks := cs_tracks st; cs_mths := cs_mths st; cs_mcpus := cs_mcpus st; cs_ext := x; cs_inited := cs_inited st |}.
+  {| cs_bay := cs_bay st; cs_reg := cs_reg st; cs_pend := cs_pend st; cs_narr := cs_narr st; cs_tracks := cs_tracks st; cs_mths := cs_mths st; cs_mcpus := cs_mcpus st; cs_ext := x; cs_inited := cs_inited st; cs_mark := cs_mark st; cs_bd := cs_bd st |}.
 Definition with_inited (st : cstate) (x : list (bool * nat)) : cstate :=
-  {| cs_bay := cs_bay st; cs_reg := cs_reg st; cs_pend := cs_pend st; cs_narr := cs_narr st; cs_tracks := cs_tracks st; cs_mths := cs_mths st; cs_mcpus := cs_mcpus st; cs_ext := cs_ext st; cs_inited := x |}.
+  {| cs_bay := cs_bay st; cs_reg := cs_reg st; cs_pend := cs_pend st; cs_narr := cs_narr st; cs_tracks := cs_tracks st; cs_mths := cs_mths st; cs_mcpus := cs_mcpus st; cs_ext := cs_ext st; cs_inited := x; cs_mark := cs_mark st; cs_bd := cs_bd st |}.
+Definition with_mark (st : cstate) (x : list ((bool * nat) * (ptr_chan * ptr_track))) : cstate :=
+  {| cs_bay := cs_bay st; cs_reg := cs_reg st; cs_pend := cs_pend st; cs_narr := cs_narr st; cs_tracks := cs_tracks st; cs_mths := cs_mths st; cs_mcpus := cs_mcpus st; cs_ext := cs_ext st; cs_inited := cs_inited st; cs_mark := x; cs_bd := cs_bd st |}.
+Definition with_bd (st : cstate) (x : list ((nat * nat) * nat)) : cstate :=
+  {| cs_bay := cs_bay st; cs_reg := cs_reg st; cs_pend := cs_pend st; cs_narr := cs_narr st; cs_tracks := cs_tracks st; cs_mths := cs_mths st; cs_mcpus := cs_mcpus st; cs_ext := cs_ext st; cs_inited := cs_inited st; cs_mark := cs_mark st; cs_bd := x |}.
 
 (* ---- the specs *)
 Definition mchans (sx : cenv) (m : Z) : list chanspec := filter (fun sp => cs_model sp =? m) (cn_chans sx).
@@ -315,7 +327,7 @@ Definition get_track__bay (sx : cenv) (st : cstate) (p : ptr_track) : ptr_bay :=
 Definition get_track__out (sx : cenv) (st : cstate) (p : ptr_track) : ptr_chan := match track_at st p with Some o => tk_out o | None => None end.
 Definition get_track__name (sx : cenv) (st : cstate) (p : ptr_track) : ptr_str := Some ""%string.
 Definition addr_track_ch (p : ptr_track) : ptr_chan := match p with Some (b, i) => Some (ATrk b i) | None => None end.
-Definition addr_track_mux (p : ptr_track) : ptr_mux := p.
+Definition addr_track_mux (p : ptr_track) : ptr_mux := match p with Some (b, i) => Some (MTrk b i) | None => None end.
 Definition upd_track (st : cstate) (p : option (nat * Z)) (f : trackobj -> trackobj) : result (unit * cstate) :=
   match p, track_at st p with
   | Some (b, i), Some o =>
@@ -381,12 +393,37 @@ Definition bay_register (b : ptr_bay) (c : ptr_chan) : M unit :=
                end.
 
 (* ---- mux.c *)
-Definition selfun_of (f : ptr_fn) : B.selfun := match f with None => B.SelDefault | Some FRunning => B.SelRunning | Some FActive => B.SelActive end.
+From OV Require Emu.BayBreakdownDefs.
+Definition selfun_of (sx : cenv) (f : ptr_fn) : B.selfun :=
+  match f with
+  | None => B.SelDefault
+  | Some FRunning => B.SelRunning
+  | Some FActive => B.SelActive
+  | Some FSelTr => B.SelCustom (BayBreakdownDefs.g_tr (cn_body sx))          (* nosv/breakdown.c select_tr *)
+  | Some FSelIdle => B.SelCustom (BayBreakdownDefs.g_idle (cn_prog sx))      (* select_idle *)
+  end.
+Definition fn_select_tr : ptr_fn := Some FSelTr.
+Definition fn_select_idle : ptr_fn := Some FSelIdle.
 Definition UNSET : nat := 0%nat.
+Definition bd_get (st : cstate) (k : nat * nat) : option nat :=
+  match find (fun x => Nat.eqb (fst (fst x)) (fst k) && Nat.eqb (snd (fst x)) (snd k)) (cs_bd st) with Some (_, v) => Some v | None => None end.
+Definition mux_id (st : cstate) (m : muxref) : option nat :=
+  match m with
+  | MTrk b i => match track_at st (Some (b, i)) with Some o => tk_mux o | None => None end
+  | MBd a w => bd_get st (a, w)
+  end.
+Definition mux_exists (st : cstate) (m : muxref) : bool :=
+  match m with MTrk b i => negb (is_null (track_at st (Some (b, i)))) | MBd _ _ => true end.
+Definition mux_record (st : cstate) (m : muxref) (mid : nat) : result (unit * cstate) :=
+  match m with
+  | MTrk b i => upd_track st (Some (b, i)) (fun o => {| tk_type := tk_type o; tk_mode := tk_mode o; tk_bay := tk_bay o; tk_out := tk_out o; tk_mux := Some mid |})
+  | MBd a w => Ok (tt, with_bd st (((a, w), mid) :: cs_bd st))
+  end.
 Definition mux_init (m : ptr_mux) (b : ptr_bay) (sel out : ptr_chan) (fsel : ptr_fn) (ninputs : Z) : M unit :=
   fun sx st =>
-    match m, track_at st m, b, sel, out with
-    | Some (tb, ti), Some o, Some _, Some s, Some u =>
+    match m, b, sel, out with
+    | Some mr, Some _, Some s, Some u =>
+      if negb (mux_exists st mr) then Err E_TRAP else
       match id_of st s, id_of st u with
       | Some si, Some ui =>
         if caddr_eqb s u then Err E_FAIL else
@@ -397,27 +434,24 @@ Definition mux_init (m : ptr_mux) (b : ptr_bay) (sel out : ptr_chan) (fsel : ptr
           let mid := length (B.b_muxes bb) in
           let ch' := {| B.c_stack := B.c_stack ch; B.c_val := B.c_val ch; B.c_stk := B.c_stk ch; B.c_last := B.c_last ch;
                         B.c_dirty := B.c_dirty ch; B.c_dw := true; B.c_allow := true; B.c_ign := B.c_ign ch |} in
-          let mx := {| B.mx_init := true; B.mx_sel := si; B.mx_out := ui; B.mx_fun := selfun_of fsel; B.mx_def := None;
+          let mx := {| B.mx_init := true; B.mx_sel := si; B.mx_out := ui; B.mx_fun := selfun_of sx fsel; B.mx_def := None;
                        B.mx_ins := repeat UNSET (Z.to_nat ninputs); B.mx_en := repeat false (Z.to_nat ninputs);
                        B.mx_selected := Some 0%nat |} in
           let bb' := {| B.b_chans := update (B.b_chans bb) ui ch';
                         B.b_dcbs := update (B.b_dcbs bb) si (nth si (B.b_dcbs bb) [] ++ [B.DSelect mid]);
                         B.b_ecbs := B.b_ecbs bb; B.b_muxes := B.b_muxes bb ++ [mx]; B.b_dirty := B.b_dirty bb |} in
-          match upd_track (with_bay st bb') m (fun o => {| tk_type := tk_type o; tk_mode := tk_mode o; tk_bay := tk_bay o; tk_out := tk_out o; tk_mux := Some mid |}) with
-          | Ok r => Ok r
-          | Err e => Err e
-          end
+          mux_record (with_bay st bb') mr mid
         | None => Err E_TRAP
         end
       | _, _ => Err E_FAIL                                 (* not registered *)
       end
-    | _, _, _, _, _ => Err E_TRAP
+    | _, _, _, _ => Err E_TRAP
     end.
 Definition mux_set_input (m : ptr_mux) (index : Z) (inp : ptr_chan) : M unit :=
   fun sx st =>
-    match track_at st m, inp with
-    | Some o, Some a =>
-      match tk_mux o, id_of st a with
+    match m, inp with
+    | Some mr, Some a =>
+      match mux_id st mr, id_of st a with
       | Some mid, Some ii =>
         match nth_error (B.b_muxes (cs_bay st)) mid with
         | Some mx =>
@@ -433,6 +467,68 @@ Definition mux_set_input (m : ptr_mux) (index : Z) (inp : ptr_chan) : M unit :=
       | _, None => Err E_FAIL                              (* input not registered *)
       end
     | _, _ => Err E_TRAP
+    end.
+(* mux_add_reselect: bay_add_cb(.., chan, cb_reselect, mux, 1): appended ENABLED to the dirty callbacks of chan *)
+Definition mux_add_reselect (m : ptr_mux) (c : ptr_chan) : M unit :=
+  fun sx st =>
+    match m, c with
+    | Some mr, Some a =>
+      match mux_id st mr, id_of st a with
+      | Some mid, Some ci =>
+        let bb := cs_bay st in
+        Ok (tt, with_bay st {| B.b_chans := B.b_chans bb; B.b_dcbs := update (B.b_dcbs bb) ci (nth ci (B.b_dcbs bb) [] ++ [B.DReselect mid]);
+                               B.b_ecbs := B.b_ecbs bb; B.b_muxes := B.b_muxes bb; B.b_dirty := B.b_dirty bb |})
+      | None, _ => Err E_TRAP
+      | _, None => Err E_FAIL
+      end
+    | _, _ => Err E_TRAP
+    end.
+Definition cvalue := value.
+Definition value_int64 (sx : cenv) (st : cstate) (z : Z) : cvalue := Some z.
+Definition mux_set_default (m : ptr_mux) (v : cvalue) : M unit :=
+  fun sx st =>
+    match m with
+    | Some mr =>
+      match mux_id st mr with
+      | Some mid =>
+        match nth_error (B.b_muxes (cs_bay st)) mid with
+        | Some mx => Ok (tt, with_bay st (B.set_mux (cs_bay st) mid
+                       {| B.mx_init := B.mx_init mx; B.mx_sel := B.mx_sel mx; B.mx_out := B.mx_out mx; B.mx_fun := B.mx_fun mx;
+                          B.mx_def := v; B.mx_ins := B.mx_ins mx; B.mx_en := B.mx_en mx; B.mx_selected := B.mx_selected mx |}))
+        | None => Err E_TRAP
+        end
+      | None => Err E_TRAP
+      end
+    | None => Err E_TRAP
+    end.
+
+(* ---- nosv/breakdown.c: struct nosv_cpu = the model_cpu object of model 'V' + its breakdown part *)
+Definition ptr_ncpu := option nat.
+Definition ptr_bcpu := option nat.
+Definition ptr_value := option unit.
+Definition addr_nosv_cpu_breakdown (p : ptr_ncpu) : ptr_bcpu := p.
+Definition addr_nosv_breakdown_cpu_tr (p : ptr_bcpu) : ptr_chan := option_map (fun a => ABd a 0) p.
+Definition addr_nosv_breakdown_cpu_tri (p : ptr_bcpu) : ptr_chan := option_map (fun a => ABd a 1) p.
+Definition addr_nosv_breakdown_cpu_mux0 (p : ptr_bcpu) : ptr_mux := option_map (fun a => MBd a 0) p.
+Definition addr_nosv_breakdown_cpu_mux1 (p : ptr_bcpu) : ptr_mux := option_map (fun a => MBd a 1) p.
+Definition get_nosv_cpu__m_track (sx : cenv) (st : cstate) (p : ptr_ncpu) : ptr_track :=
+  match p with Some a => match nth_error (cs_mcpus st) a with Some o => mc_track o | None => None end | None => None end.
+(* sort_set_input(&bemu->sort, i, &bcpu->tri) (sort.c, not in this unit): bay_add_cb(.., tri, sort_cb_input, input, 1).  Rendered as
+   BayBreakdownDefs does: an always-enabled input callback of a pseudo mux that copies tri into a sink channel *)
+Definition sort_set_input (a : nat) : M unit :=
+  fun sx st =>
+    match id_of st (ABd a 1), id_of st (ASink a) with
+    | Some ti, None =>
+      let bb := cs_bay st in
+      let sk := length (B.b_chans bb) in
+      let mid := length (B.b_muxes bb) in
+      let mx := {| B.mx_init := true; B.mx_sel := sk; B.mx_out := sk; B.mx_fun := B.SelDefault; B.mx_def := None;
+                   B.mx_ins := [ti]; B.mx_en := [true]; B.mx_selected := Some 0%nat |} in
+      Ok (tt, with_bd (with_reg (with_bay st {| B.b_chans := B.b_chans bb ++ [B.mk_chan false true true false];
+                                                B.b_dcbs := update (B.b_dcbs bb) ti (nth ti (B.b_dcbs bb) [] ++ [B.DInput mid 0]) ++ [[]];
+                                                B.b_ecbs := B.b_ecbs bb ++ [[]]; B.b_muxes := B.b_muxes bb ++ [mx]; B.b_dirty := B.b_dirty bb |})
+                                (cs_reg st ++ [ASink a])) (((a, 2%nat), mid) :: cs_bd st))
+    | _, _ => Err E_FAIL
     end.
 
 (* ---- the PVT side: only which file *)
@@ -459,3 +555,50 @@ Definition prv_register (p : ptr_prv) (row type : Z) (b : ptr_bay) (c : ptr_chan
       end
     | _, _, _ => Err E_TRAP
     end.
+
+(* ---- ovni/mark.c: the mark channels (pseudo-model 1000 of the channel specs: one spec per mark type, in the order
+   of the hash table memu->types = order of first appearance; index = position) *)
+Definition M_MARK : Z := 1000.
+Definition ptr_oemu := option unit.
+Definition ptr_memu := option unit.
+Definition ptr_othread := option nat.          (* the struct ovni_thread IS the model_thread object of model 'O' *)
+Definition ptr_mkth := option nat.
+Definition ptr_ocpu := option nat.
+Definition ptr_mkcpu := option nat.
+Definition ptr_mtype := option nat.
+Definition addr_emu_ext (e : ptr_emu) : ptr_extend := None.
+(* EXT(emu, 'O'): model_ovni_create stored the struct ovni_emu (not translated): it exists *)
+Definition ptr_oemu_of_void (p : ptr_void) : ptr_oemu := Some tt.
+Definition ptr_othread_of_void (p : ptr_void) : ptr_othread := match p with Some (VMth a) => Some a | _ => None end.
+Definition ptr_ocpu_of_void (p : ptr_void) : ptr_ocpu := match p with Some (VMcpu a) => Some a | _ => None end.
+Definition addr_ovni_emu_mark (p : ptr_oemu) : ptr_memu := p.
+Definition addr_ovni_thread_mark (p : ptr_othread) : ptr_mkth := p.
+Definition addr_ovni_cpu_mark (p : ptr_ocpu) : ptr_mkcpu := p.
+Definition mark_specs (sx : cenv) : list chanspec := mchans sx M_MARK.
+Definition get_ovni_mark_emu__ntypes (sx : cenv) (st : cstate) (m : ptr_memu) : Z := Z.of_nat (length (mark_specs sx)).
+Definition get_ovni_mark_emu__types (sx : cenv) (st : cstate) (m : ptr_memu) : ptr_mtype := first_of (length (mark_specs sx)).
+Definition for_hh_mark_type {A} (start : cenv -> cstate -> ptr_mtype) (acc : A) (body : ptr_mtype -> A -> M A) : M A :=
+  fun sx st => match start sx st with
+               | None => Ok (acc, st)
+               | Some k => for_list (map (fun j => Some j) (seq k (length (mark_specs sx) - k))) acc body sx st
+               end.
+Definition mspec (sx : cenv) (t : ptr_mtype) : chanspec := match t with Some k => nth k (mark_specs sx) null_spec | None => null_spec end.
+Definition get_mark_type__index (sx : cenv) (st : cstate) (t : ptr_mtype) : Z := match t with Some k => Z.of_nat k | None => 0 end.
+Definition get_mark_type__ctype (sx : cenv) (st : cstate) (t : ptr_mtype) : Z := if cs_stack (mspec sx t) then T_STACK else 0.
+Definition get_mark_type__prvtype (sx : cenv) (st : cstate) (t : ptr_mtype) : Z := cs_type (mspec sx t).
+Definition mark_get (st : cstate) (k : bool * nat) : ptr_chan * ptr_track :=
+  match find (fun x => Bool.eqb (fst (fst x)) (fst k) && Nat.eqb (snd (fst x)) (snd k)) (cs_mark st) with Some (_, v) => v | None => (None, None) end.
+Definition mark_put (st : cstate) (k : bool * nat) (v : ptr_chan * ptr_track) : cstate := with_mark st ((k, v) :: cs_mark st).
+Definition get_ovni_mark_thread__channels (sx : cenv) (st : cstate) (p : ptr_mkth) : ptr_chan := match p with Some a => fst (mark_get st (false, a)) | None => None end.
+Definition get_ovni_mark_thread__track (sx : cenv) (st : cstate) (p : ptr_mkth) : ptr_track := match p with Some a => snd (mark_get st (false, a)) | None => None end.
+Definition get_ovni_mark_cpu__track (sx : cenv) (st : cstate) (p : ptr_mkcpu) : ptr_track := match p with Some a => snd (mark_get st (true, a)) | None => None end.
+Definition set_ovni_mark_thread_channels (p : ptr_mkth) (v : cenv -> cstate -> ptr_chan) : M unit :=
+  fun sx st => match p with Some a => Ok (tt, mark_put st (false, a) (v sx st, snd (mark_get st (false, a)))) | None => Err E_TRAP end.
+Definition set_ovni_mark_thread_track (p : ptr_mkth) (v : cenv -> cstate -> ptr_track) : M unit :=
+  fun sx st => match p with Some a => Ok (tt, mark_put st (false, a) (fst (mark_get st (false, a)), v sx st)) | None => Err E_TRAP end.
+Definition set_ovni_mark_thread_nchannels (p : ptr_mkth) (v : cenv -> cstate -> Z) : M unit :=
+  fun sx st => match p with Some _ => Ok (tt, st) | None => Err E_TRAP end.
+Definition set_ovni_mark_cpu_track (p : ptr_mkcpu) (v : cenv -> cstate -> ptr_track) : M unit :=
+  fun sx st => match p with Some a => Ok (tt, mark_put st (true, a) (None, v sx st)) | None => Err E_TRAP end.
+Definition mark_init_pcf (e : ptr_emu) (p : ptr_pcf) : M unit := ret tt.
+Definition get_emu__system_cpus (sx : cenv) (st : cstate) (e : ptr_emu) : ptr_scpu := first_of (cn_ncpu sx).
